@@ -65,7 +65,15 @@ func (c *invChecker) inspect(s *engine.Sim) {
 }
 
 type checker struct {
-	out []Violation
+	out    []Violation
+	probes map[string]int // reach probes: rare conditions the oracles actually met in this run
+}
+
+func (c *checker) probe(name string) {
+	if c.probes == nil {
+		c.probes = map[string]int{}
+	}
+	c.probes[name]++
 }
 
 func (c *checker) add(prop, class, f string, a ...any) {
@@ -86,6 +94,7 @@ var errGoexitMsg = "job exited unexpectedly"
 // Check evaluates every L2 oracle over a finished run.
 func Check(res *Result) []Violation {
 	c := &checker{}
+	defer func() { res.OracleProbes = c.probes }()
 	c.out = append(c.out, res.InvViol...)
 	sim := res.Sim
 	if sim.Invalid != "" {
@@ -295,7 +304,55 @@ func (c *checker) checkFlow(x *execRun) {
 		}
 	}
 	noCancel := d.CancelMode == CancelNone && !cancelInherited
+	retSeq := 0
+	for _, e := range x.events {
+		if e.Kind == EvRet {
+			retSeq = e.Seq
+		}
+	}
+	for _, t := range f.Tasks {
+		s := task[t.ID]
+		switch {
+		case M.UsedFB[t.ID] && d.PredOut[t.ID] == progen.PredPanic && t.Pred != nil:
+			c.probe("fallback_taken_on_predicate_panic")
+		case M.UsedFB[t.ID] && d.TaskOut[t.ID] == progen.Panic:
+			c.probe("fallback_taken_on_panic")
+		case M.UsedFB[t.ID] && d.TaskOut[t.ID] == progen.Err:
+			c.probe("fallback_taken_on_error")
+		}
+		if t.Pred != nil && M.PredEval[t.ID] && d.PredOut[t.ID] == progen.PredFalse && pred[t.ID] != nil {
+			c.probe("task_skipped_by_false_predicate")
+		}
+		if s != nil && x.returned && retSeq != 0 && s.start < retSeq && (s.end == 0 || s.end > retSeq) {
+			c.probe("directive_returned_while_task_running")
+		}
+	}
+	if d.HoldTask != 0 && x.returned {
+		c.probe("predicate_evaluated_while_task_input_provider_held")
+	}
+	if x.err != nil && len(x.res) > 0 {
+		c.probe("results_checked_untouched_on_error")
+	}
+	if cancelSeq != 0 {
+		c.probe("context_cancelled_during_or_before_flow")
+	}
 
+	if f.MutArg {
+		seen := false
+		for _, m := range []map[int]*span{task, pred} {
+			for _, s := range m {
+				for _, a := range s.args {
+					seen = seen || a == progen.MutVal
+				}
+			}
+		}
+		for _, v := range x.res {
+			seen = seen || v == progen.MutVal
+		}
+		if seen {
+			c.add("C15", "evaluation-order:operand-read-after-later-argument", "%s: a cff.Params argument that is a plain variable was read after a later argument's side effect had overwritten the variable (value %x reached the flow)", who, progen.MutVal)
+		}
+	}
 	// at most once
 	for id, s := range task {
 		if s.n > 1 {
@@ -590,9 +647,68 @@ func (c *checker) checkProbes(x *execRun) {
 	}
 }
 
+// jobBounds returns how many jobs an execution can submit at most, and how
+// many of them name dependencies.
+func jobBounds(x *execRun) (jobs, withDeps int) {
+	if f := x.prog.Flow; f != nil {
+		prov := map[int]bool{}
+		for i := range f.Tasks {
+			for _, o := range f.Tasks[i].Out {
+				prov[o] = true
+			}
+		}
+		for i := range f.Tasks {
+			t := &f.Tasks[i]
+			jobs++
+			dep := t.Pred != nil
+			for _, in := range t.In {
+				dep = dep || prov[in]
+			}
+			if dep {
+				withDeps++
+			}
+			if t.Pred != nil {
+				jobs++
+				for _, in := range t.Pred.In {
+					if prov[in] {
+						withDeps++
+						break
+					}
+				}
+			}
+		}
+		return
+	}
+	p := x.prog.Par
+	jobs = len(p.Tasks)
+	for i := range p.Colls {
+		if cd := x.d.Colls[p.Colls[i].ID]; cd != nil && !cd.Nil {
+			jobs += len(cd.Vals)
+		}
+		if p.Colls[i].End != nil {
+			jobs++
+			withDeps++
+		}
+	}
+	return
+}
+
 func (c *checker) checkStates(x *execRun) {
 	who := fmt.Sprintf("exec %d (%s)", x.idx, x.prog.Name)
+	jobs, withDeps := jobBounds(x)
+	if x.statesAfterRet > 0 {
+		c.add("C19", "report-after-wait", "%s: %d scheduler state reports were emitted after the directive had returned nil", who, x.statesAfterRet)
+	}
+	if len(x.states) > 0 {
+		c.probe("scheduler_state_reports_checked")
+	}
 	for _, st := range x.states {
+		if st.Pending > jobs {
+			c.add("C19", "pending>submitted", "%s: report %+v: Pending exceeds the %d jobs this directive can submit", who, st, jobs)
+		}
+		if st.Waiting > withDeps {
+			c.add("C19", "waiting>submitted-with-deps", "%s: report %+v: Waiting exceeds the %d jobs of this directive that have dependencies", who, st, withDeps)
+		}
 		ex := st.Pending - st.Ready - st.Waiting
 		switch {
 		case st.Pending < 0 || st.Ready < 0 || st.Waiting < 0 || st.IdleWorkers < 0:
@@ -803,6 +919,27 @@ func (c *checker) checkPar(x *execRun) {
 		}
 	}
 	noCancel := d.CancelMode == CancelNone && !cancelInherited
+	for id, eh := range endHook {
+		_ = id
+		if eh.end != 0 {
+			c.probe("end_hook_ran")
+		}
+	}
+	for i := range p.Colls {
+		col := &p.Colls[i]
+		if col.End != nil && endHook[col.ID] == nil && x.returned {
+			c.probe("end_hook_not_run_(failure_cancel_or_early_exit)")
+		}
+		if cd := d.Colls[col.ID]; cd == nil || cd.Nil || len(cd.Vals) == 0 {
+			c.probe("empty_or_nil_collection")
+		}
+	}
+	if d.CancelMode == CancelInElem && cancelSeq != 0 {
+		c.probe("context_cancelled_inside_element_call")
+	}
+	if coe && x.err != nil && len(multierr.Errors(x.err)) > 1 {
+		c.probe("continue_on_error_multiple_entries")
+	}
 	goexit := false
 	fired := 0 // failures that actually happened
 	var wantErrs []error
@@ -913,6 +1050,9 @@ func (c *checker) checkPar(x *execRun) {
 			for k, n := range want {
 				if n > 0 {
 					c.add("C10", "element-not-called", "%s: Parallel returned nil but the function of collection %d was never called with (%d, %x)", who, col.ID, k.a, k.b)
+					if p.MutArg && len(elems[col.ID]) == 0 {
+						c.add("C15", "evaluation-order:operand-read-after-later-argument", "%s: collection %d, passed as a plain variable, was read after a later argument's side effect had set the variable to nil (no element was processed)", who, col.ID)
+					}
 				}
 			}
 			if col.End != nil && (endHook[col.ID] == nil || endHook[col.ID].end == 0) {
